@@ -23,3 +23,4 @@ import DateutilVerif.Properties.TzGen   -- translator tie (wt-iso): obligations 
 #print axioms C05.ambiguous_iff_gen
 #print axioms C05.gen_eq_model_tzinfo_is_ambiguous
 #print axioms C05.gen_eq_model_tzinfo_fold_status
+#print axioms C05.explicit_tz_wins
